@@ -44,11 +44,15 @@ def sym(modname, fname, timeout, seed):
     stats = dict(solver_checks=0, solver_s=0.0, paths=0, ignored=0)
     _orig_check = z3.Solver.check
 
+    from crosshair.tracers import NoTracing
+
     def counted_check(self, *a):
-        t = time.time()
-        r = _orig_check(self, *a)
-        stats['solver_s'] += time.time() - t
-        stats['solver_checks'] += 1
+        # NoTracing: CrossHair intercepts time.time() while tracing (it would hand back a symbolic float)
+        with NoTracing():
+            t = time.time()
+            r = _orig_check(self, *a)
+            stats['solver_s'] += time.time() - t
+            stats['solver_checks'] += 1
         return r
 
     z3.Solver.check = counted_check
